@@ -30,27 +30,46 @@ import (
 )
 
 type c05PTRes struct {
-	Name    string `json:"name"`
-	Ready   bool   `json:"ready"`   // its readiness checks hold
-	Checks  int    `json:"checks"`  // how many readiness checks the template has (1..3)
-	Invalid bool   `json:"invalid"` // the API server rejects the apply (422)
+	Name     string      `json:"name"`
+	Rendered bool        `json:"rendered"` // false: a Required from-composite patch of the template cannot be rendered
+	Invalid  bool        `json:"invalid"`  // the API server rejects the apply (422)
+	Obj      c05RObj     `json:"obj"`      // the status the composed resource carries when it is observed
+	Checks   []c05RCheck `json:"checks"`   // the template's readiness checks (0 = the Ready condition decides)
 }
 
 type c05PTRec struct {
 	XR  int        `json:"xr"`
 	Res []c05PTRes `json:"res"`
-	// Patch: index into the XR's status.conditions whose .status a ToCompositeFieldPath patch of
-	// the FIRST template sets to PatchTo (-1 = no such patch)
-	Patch   int    `json:"patch"`
-	PatchTo string `json:"patchTo"`
-	Publish string `json:"publish"`
-	Lost    string `json:"lost"`
+	// Patch: index into the XR's status.conditions whose .status (or .reason) a ToCompositeFieldPath
+	// patch of the FIRST template sets to PatchTo (-1 = no such patch)
+	Patch      int    `json:"patch"`
+	PatchField string `json:"patchField"` // "" / "status" | "reason"
+	PatchTo    string `json:"patchTo"`
+	// Fault: the call at which Compose fails ("" = nowhere): "refs" the Update persisting
+	// spec.resourceRefs, "apply" the first apply of a composed resource, "xrApply" the final Apply of
+	// the XR; FaultErr its class
+	Fault    string `json:"fault"`
+	FaultErr string `json:"faultErr"`
+	Publish  string `json:"publish"`
+	Lost     string `json:"lost"`
 }
 
 type c05PTScn struct {
 	Kind string     `json:"kind"` // "ptst"
 	XRs  []c05XR    `json:"xrs"`
 	Recs []c05PTRec `json:"recs"`
+}
+
+func c05GenPTRes(r *Rng, name string) c05PTRes {
+	g := c05GenReady(r)
+	if len(g.Checks) > 3 {
+		g.Checks = g.Checks[:3]
+	}
+	if len(g.Checks) == 0 && r.Chance(2, 3) {
+		// templates normally carry checks (defaulting adds one)
+		g.Checks = append(g.Checks, c05GenRCheck(r, g.Obj, true))
+	}
+	return c05PTRes{Name: name, Rendered: !r.Chance(1, 10), Invalid: r.Chance(1, 10), Obj: g.Obj, Checks: g.Checks}
 }
 
 func c05GenPT(r *Rng) c05PTScn {
@@ -63,7 +82,11 @@ func c05GenPT(r *Rng) c05PTScn {
 		rec := c05PTRec{XR: r.Intn(len(s.XRs)), Patch: -1}
 		p := r.Perm(4)
 		for j, m := 0, r.Range(1, 3); j < m; j++ {
-			rec.Res = append(rec.Res, c05PTRes{Name: []string{"a", "b", "c", "d"}[p[j]], Ready: r.Chance(3, 4), Checks: r.Range(1, 3), Invalid: r.Chance(1, 10)})
+			rec.Res = append(rec.Res, c05GenPTRes(r, []string{"a", "b", "c", "d"}[p[j]]))
+		}
+		if r.Chance(1, 6) {
+			rec.Fault = Pick(r, []string{"refs", "apply", "xrApply", "xrApply"})
+			rec.FaultErr = Pick(r, c05ErrClasses)
 		}
 		if r.Chance(1, 6) {
 			rec.Publish = Pick(r, c05ErrClasses)
@@ -78,9 +101,13 @@ func c05GenPT(r *Rng) c05PTScn {
 	first := map[int]bool{}
 	for i := range s.Recs {
 		x := s.Recs[i].XR
-		if !first[x] && len(s.XRs[x].Old) > 0 && !s.Recs[i].Res[0].Invalid && r.Chance(1, 3) {
+		if !first[x] && len(s.XRs[x].Old) > 0 && r.Chance(1, 3) {
 			s.Recs[i].Patch = r.Intn(len(s.XRs[x].Old))
+			s.Recs[i].PatchField = Pick(r, []string{"status", "status", "status", "reason"})
 			s.Recs[i].PatchTo = Pick(r, []string{"True", "True", "False"})
+			if s.Recs[i].PatchField == "reason" {
+				s.Recs[i].PatchTo = Pick(r, []string{"Available", "ReconcileSuccess", "Patched"})
+			}
 		}
 		first[x] = true
 	}
@@ -94,6 +121,28 @@ type c05PTWorld struct {
 	cur *c05PTRec
 }
 
+// c05PTStatus is the status block of a composed resource (what its provider would have written).
+func c05PTStatus(o c05RObj) map[string]any {
+	st := map[string]any{}
+	if o.S != nil {
+		st["s"] = *o.S
+	}
+	if o.N != nil {
+		st["n"] = *o.N
+	}
+	if o.B != nil {
+		st["b"] = *o.B
+	}
+	if len(o.Conds) > 0 {
+		cs := []any{}
+		for _, c := range o.Conds {
+			cs = append(cs, map[string]any{"type": c.Type, "status": c.Status, "reason": c.Reason, "lastTransitionTime": "2024-01-01T00:00:00Z"})
+		}
+		st["conditions"] = cs
+	}
+	return st
+}
+
 func c05PTRevision(rec c05PTRec) *v1.CompositionRevision {
 	rev := &v1.CompositionRevision{}
 	mode := v1.CompositionModeResources
@@ -105,38 +154,48 @@ func c05PTRevision(rec c05PTRec) *v1.CompositionRevision {
 			content = xwInvalidContent
 		}
 		kind := c05FnKindOf[d.Name]
-		base := map[string]any{"apiVersion": xwGroup + "/v1", "kind": kind, "spec": map[string]any{"content": content, "flag": rec.PatchTo, "s": "ok"}}
+		base := map[string]any{"apiVersion": xwGroup + "/v1", "kind": kind, "spec": map[string]any{"content": content, "flag": rec.PatchTo}, "status": c05PTStatus(d.Obj)}
 		raw, _ := json.Marshal(base)
 		t := v1.ComposedTemplate{Name: &name, Base: runtime.RawExtension{Raw: raw}}
-		// the first check decides; the others hold
-		for k := 0; k < d.Checks; k++ {
-			rc := v1.ReadinessCheck{Type: v1.ReadinessCheckTypeMatchString, FieldPath: "spec.s", MatchString: "ok"}
-			if k == d.Checks-1 && !d.Ready {
-				// the LAST check is the one that does not hold
-				rc = v1.ReadinessCheck{Type: v1.ReadinessCheckTypeNonEmpty, FieldPath: "status.neverSet"}
+		for _, c := range d.Checks {
+			rc := v1.ReadinessCheck{Type: v1.ReadinessCheckType(c.Type), FieldPath: c.Path, MatchString: c.MS, MatchInteger: c.MI}
+			if c.HasCond {
+				rc.MatchCondition = &v1.MatchConditionReadinessCheck{Type: xpv1.ConditionType(c.CT), Status: corev1.ConditionStatus(c.CS)}
 			}
 			t.ReadinessChecks = append(t.ReadinessChecks, rc)
 		}
+		if !d.Rendered {
+			// a Required patch from a field the XR does not have: RenderFromCompositePatches fails
+			from, to := "spec.absent", "spec.copied"
+			req := v1.FromFieldPathPolicyRequired
+			t.Patches = append(t.Patches, v1.Patch{Type: v1.PatchTypeFromCompositeFieldPath, FromFieldPath: &from, ToFieldPath: &to, Policy: &v1.PatchPolicy{FromFieldPath: &req}})
+		}
 		if i == 0 && rec.Patch >= 0 {
-			from, to := "spec.flag", fmt.Sprintf("status.conditions[%d].status", rec.Patch)
-			t.Patches = []v1.Patch{{Type: v1.PatchTypeToCompositeFieldPath, FromFieldPath: &from, ToFieldPath: &to}}
+			f := rec.PatchField
+			if f == "" {
+				f = "status"
+			}
+			from, to := "spec.flag", fmt.Sprintf("status.conditions[%d].%s", rec.Patch, f)
+			t.Patches = append(t.Patches, v1.Patch{Type: v1.PatchTypeToCompositeFieldPath, FromFieldPath: &from, ToFieldPath: &to})
 		}
 		rev.Spec.Resources = append(rev.Spec.Resources, t)
 	}
 	return rev
 }
 
+func c05PTComposedKind(k string) bool { return k == "KA" || k == "KB" }
+
 func c05NewPTWorld(s c05PTScn) *c05PTWorld {
 	st := NewStore(runtime.NewScheme())
 	st.Reject = func(m map[string]any) bool {
-		if k, _ := m["kind"].(string); k != "KA" && k != "KB" {
+		if k, _ := m["kind"].(string); !c05PTComposedKind(k) {
 			return false
 		}
 		c, _, _ := unstructured.NestedInt64(m, "spec", "content")
 		return c == xwInvalidContent
 	}
 	w := &c05PTWorld{st: st}
-	w.cl = &c05Client{Store: st}
+	w.cl = &c05Client{Store: st, StrictRV: true}
 	for _, x := range s.XRs {
 		xr := ucomposite.New(ucomposite.WithGroupVersionKind(c05XRGVK))
 		xr.SetName(x.Name)
@@ -167,6 +226,28 @@ func c05NewPTWorld(s c05PTScn) *c05PTWorld {
 	return w
 }
 
+// c05PTReadyOracle: the harness's own reading of "the template's readiness checks hold" -
+// "true" / "false" / "error", independent of ready.go and of the Lean model.
+func c05PTReadyOracle(d c05PTRes) string {
+	if len(d.Checks) == 0 {
+		for _, k := range d.Obj.Conds {
+			if k.Type == "Ready" {
+				if k.Status == "True" {
+					return "true"
+				}
+				return "false"
+			}
+		}
+		return "false"
+	}
+	for _, c := range d.Checks {
+		if o := c05ROracle(d.Obj, c); o != "true" {
+			return o
+		}
+	}
+	return "true"
+}
+
 func c05RunPT(s c05PTScn) (c05SeqObs, []Mon) {
 	w := c05NewPTWorld(s)
 	st := w.st
@@ -189,7 +270,6 @@ func c05RunPT(s c05PTScn) (c05SeqObs, []Mon) {
 		for _, x := range s.XRs {
 			before[x.Name], _, _ = c05XRState(st, x.Name)
 		}
-		_, beforeList, _ := c05XRState(st, name)
 		// which condition type the patch index addresses (the stored order, not the sorted one)
 		target := ""
 		if rec.Patch >= 0 {
@@ -201,12 +281,35 @@ func c05RunPT(s c05PTScn) (c05SeqObs, []Mon) {
 				}
 			}
 		}
-		_ = beforeList
+		// the providers' status writes: every composed resource of this XR that already exists
+		// carries the status this reconcile is to observe
+		for _, u := range st.All() {
+			if !c05PTComposedKind(u.GetKind()) || u.GetLabels()["crossplane.io/composite"] != name {
+				continue
+			}
+			for _, d := range rec.Res {
+				if u.GetAnnotations()["crossplane.io/composition-resource-name"] == d.Name {
+					status := c05PTStatus(d.Obj)
+					st.Mutate(u.GroupVersionKind().GroupKind(), u.GetNamespace(), u.GetName(), func(o *unstructured.Unstructured) { o.Object["status"] = status })
+				}
+			}
+		}
 		w.cur = rec
 		st.Log = nil
+		applies := 0
 		w.cl.Inject = func(c c05Call) error {
-			if c.Kind == c05XRGVK.Kind && c.Verb == "update" && c.Sub == "status" && rec.Lost != "" {
+			switch {
+			case c.Kind == c05XRGVK.Kind && c.Verb == "update" && c.Sub == "status" && rec.Lost != "":
 				return c05MkErr(rec.Lost, false)
+			case c.Kind == c05XRGVK.Kind && c.Verb == "update" && c.Sub == "" && rec.Fault == "refs":
+				return c05MkErr(rec.FaultErr, false)
+			case c.Kind == c05XRGVK.Kind && c.Verb == "patch" && c.Sub == "" && rec.Fault == "xrApply":
+				return c05MkErr(rec.FaultErr, false)
+			case c05PTComposedKind(c.Kind) && (c.Verb == "create" || c.Verb == "patch") && rec.Fault == "apply":
+				applies++
+				if applies == 1 {
+					return c05MkErr(rec.FaultErr, false)
+				}
 			}
 			return nil
 		}
@@ -225,36 +328,67 @@ func c05RunPT(s c05PTScn) (c05SeqObs, []Mon) {
 		}
 		obs.Steps = append(obs.Steps, so)
 
+		// ---- direct monitors (model-free): the harness's own reading of the scenario
 		old := before[name]
-		completed := rec.Publish == "" && rec.Lost == ""
-		if completed {
-			allReady, allSynced := true, true
-			for _, d := range rec.Res {
-				allReady = allReady && d.Ready && !d.Invalid
-				allSynced = allSynced && !d.Invalid
+		res := append([]c05PTRes{}, rec.Res...)
+		if rec.Fault == "apply" && rec.FaultErr == "invalid" {
+			// an invalid answer to the first apply rejects that resource
+			for k := range res {
+				if res[k].Rendered {
+					res[k].Invalid = true
+					break
+				}
 			}
+		}
+		anyRendered := false
+		for _, d := range rec.Res {
+			anyRendered = anyRendered || d.Rendered
+		}
+		composeFails := rec.Fault == "refs" || rec.Fault == "xrApply" || (rec.Fault == "apply" && rec.FaultErr != "invalid" && anyRendered)
+		early := composeFails && rec.Fault != "xrApply"
+		allReady, allSynced := true, true
+		for _, d := range res {
+			ok := d.Rendered && !d.Invalid
+			allSynced = allSynced && ok
+			switch {
+			case !ok:
+				allReady = false
+			default:
+				switch c05PTReadyOracle(d) {
+				case "error":
+					composeFails = true // a readiness check that cannot be run fails Compose
+					allReady = false
+				case "false":
+					allReady = false
+				}
+			}
+		}
+		completed := !composeFails && rec.Publish == "" && rec.Lost == ""
+		if completed {
 			if after["Ready"].Status == "True" && !allReady {
-				mon("C05:ready-overstated", fmt.Sprintf("reconcile %d: Ready=True although a desired resource fails a readiness check or its apply was rejected", i))
+				mon("C05:ready-overstated", fmt.Sprintf("reconcile %d: Ready=True although a desired resource was not rendered, its apply was rejected or one of its readiness checks does not hold", i))
 			}
 			if after["Synced"].Status == "True" && !allSynced {
-				mon("C05:synced-overstated", fmt.Sprintf("reconcile %d: Synced=True although the apply of a desired resource was rejected", i))
+				mon("C05:synced-overstated", fmt.Sprintf("reconcile %d: Synced=True although a desired resource was not rendered or its apply was rejected", i))
 			}
 		} else {
+			firstObserved := res[0].Rendered && !res[0].Invalid
 			for _, t := range []string{"Ready", "Synced"} {
 				if after[t].Status == "True" && old[t].Status != "True" {
 					sig := "C05:ready-set-on-error"
 					if t == "Synced" {
 						sig = "C05:synced-set-on-error"
 					}
-					if target == t && rec.PatchTo == "True" && !rec.Res[0].Invalid && rec.Publish != "" && rec.Publish != "conflict" && rec.Lost == "" {
+					if target == t && rec.PatchTo == "True" && (rec.PatchField == "" || rec.PatchField == "status") && firstObserved && !early && so.Wrote {
 						// exactly the recorded finding (D26) and nothing else: the first template was applied and
-						// its ToCompositeFieldPath patch wrote True into THIS system condition of the XR held in
-						// memory, PublishConnection failed with a non-conflict error, and the reconciler's status
-						// update (which then took effect) stored it. Any other way of ending up True keeps the
-						// ordinary signature.
+						// observed, its ToCompositeFieldPath patch wrote True into THIS system condition of the XR
+						// held in memory, and the reconcile then gave up before deriving the system conditions
+						// (PublishConnection failed, or Compose failed after the patch was rendered) with a status
+						// update that took effect and stored it. Any other way of ending up True keeps the ordinary
+						// signature.
 						sig = "C05:system-condition-set-via-xr-status-patch"
 					}
-					mon(sig, fmt.Sprintf("reconcile %d: a reconcile that did not complete (publish %q lost %q) left %s=True", i, rec.Publish, rec.Lost, t))
+					mon(sig, fmt.Sprintf("reconcile %d: a reconcile that did not complete (fault %q/%q publish %q lost %q) left %s=True", i, rec.Fault, rec.FaultErr, rec.Publish, rec.Lost, t))
 				}
 			}
 		}
@@ -272,7 +406,8 @@ func c05RunPT(s c05PTScn) (c05SeqObs, []Mon) {
 }
 
 func c05PTCls(s c05PTScn) string {
-	patch, pub, lost, rej, unready := 0, 0, 0, 0, 0
+	patch, pub, lost, rej, unrendered, unready, cerr := 0, 0, 0, 0, 0, 0, 0
+	fault := "-"
 	for _, r := range s.Recs {
 		if r.Patch >= 0 {
 			patch++
@@ -283,14 +418,23 @@ func c05PTCls(s c05PTScn) string {
 		if r.Lost != "" {
 			lost++
 		}
+		if r.Fault != "" {
+			fault = r.Fault + "=" + r.FaultErr
+		}
 		for _, d := range r.Res {
 			if d.Invalid {
 				rej++
 			}
-			if !d.Ready {
+			if !d.Rendered {
+				unrendered++
+			}
+			switch c05PTReadyOracle(d) {
+			case "false":
 				unready++
+			case "error":
+				cerr++
 			}
 		}
 	}
-	return fmt.Sprintf("ptst/xrs=%d/recs=%d/statuspatch=%d/publishErr=%d/lost=%d/rejected=%d/unready=%d", len(s.XRs), len(s.Recs), patch, pub, lost, min(rej, 2), min(unready, 2))
+	return fmt.Sprintf("ptst/xrs=%d/recs=%d/statuspatch=%d/fault=%s/publishErr=%d/lost=%d/rejected=%d/unrendered=%d/unready=%d/checkErr=%d", len(s.XRs), len(s.Recs), patch, fault, pub, lost, min(rej, 2), min(unrendered, 2), min(unready, 2), min(cerr, 1))
 }
